@@ -4,6 +4,8 @@ import (
 	"go/ast"
 	"go/token"
 	"path/filepath"
+	"sort"
+	"strings"
 )
 
 // extractStream: stream/io_chan.go
@@ -129,6 +131,25 @@ func extractStream(repo string, o *out) {
 	} else {
 		o.def("writer_copies", "Definition writer_copies : bool := true.", item{false, src, "could not decide whether Write copies; last-known value emitted"})
 	}
+	// ---- the method sets: io.Copy(writer, src) goes through Write only as long as ChanWriter has no ReadFrom, and io.Copy(dst, reader)
+	// through Read only as long as ChanReader has no WriteTo - the theorems are about Write and Read
+	methods := func(typ string) string {
+		var ms []string
+		for _, f := range p.files {
+			for _, d := range f.Decls {
+				if fd, ok := d.(*ast.FuncDecl); ok && recvType(fd) == typ && ast.IsExported(fd.Name.Name) {
+					ms = append(ms, fd.Name.Name)
+				}
+			}
+		}
+		sort.Strings(ms)
+		for i := range ms {
+			ms[i] = coqStr(ms[i])
+		}
+		return "[" + strings.Join(ms, "; ") + "]"
+	}
+	o.emit("chan_writer_methods", "", "list string", methods("ChanWriter"), "[]", "", "")
+	o.emit("chan_reader_methods", "", "list string", methods("ChanReader"), "[]", "", "")
 }
 
 func boolS(b bool) string {
